@@ -182,8 +182,15 @@ def pmap(func, items, nproc=None, chunk=None):
     if nproc == 1 or len(chunks) == 1:
         return [func(c) for c in chunks]
     ctx = mp.get_context("fork")
-    with ctx.Pool(nproc) as pool:
-        return pool.map(func, chunks)
+    # ProcessPoolExecutor (not Pool.map): a worker killed by the OOM killer must end the run with a
+    # machinery error instead of leaving the parent waiting for ever
+    from concurrent.futures import ProcessPoolExecutor
+    from concurrent.futures.process import BrokenProcessPool
+    try:
+        with ProcessPoolExecutor(max_workers=nproc, mp_context=ctx) as pool:
+            return list(pool.map(func, chunks))
+    except BrokenProcessPool as e:
+        raise MachineryError("a worker process died (killed / out of memory?): %r" % (e,))
 
 
 def tier_from_args(argv):
